@@ -278,7 +278,7 @@ def run_job(job: Job, workdir: str, keep_log_dir: Optional[str] = None) -> JobRe
             p = subprocess.Popen(tcmd, stdout=fo, stderr=subprocess.STDOUT, preexec_fn=_limit(job.mem_gb))
             _CHILDREN.add(p)
             try:
-                p.wait(timeout=job.timeout)
+                p.wait(timeout=min(job.timeout, int(os.environ.get('VERIF_DEV_TIMEOUT', '1000000'))))
             except subprocess.TimeoutExpired:
                 try:
                     os.killpg(p.pid, 9)
